@@ -39,6 +39,9 @@ type BuildOpts struct {
 	NDJson bool
 	ASan   bool
 	Matlab bool // also generate MATLAB (read as text only: no interpreter in the sandbox)
+	// Emit: spelling/layout options for the root package (definition order, file distribution, ...);
+	// its ExtraManifest is replaced by the output sections built here
+	Emit *model.EmitOptions
 	// ExtraDriver: additional C++ driver features ("ops", "cf", ...)
 }
 
@@ -84,7 +87,12 @@ func Generate(p *model.Package, o BuildOpts) (*Built, error) {
 	if o.Matlab {
 		m.WriteString("matlab:\n  outputDir: ../out/m\n")
 	}
-	l := model.EmitLayout(p, model.EmitOptions{ExtraManifest: m.String()})
+	eo := model.EmitOptions{}
+	if o.Emit != nil {
+		eo = *o.Emit
+	}
+	eo.ExtraManifest = m.String()
+	l := model.EmitLayout(p, eo)
 	WriteLayout(root, l)
 	r := Yardl(filepath.Join(root, p.DirName), "generate")
 	b.GenOut = StripANSI(r.Combined())
